@@ -12,6 +12,7 @@ of erase on this locator is modelled and executed in the correspondence check bu
 `_partial` — because it genuinely fails for overlapping moves (known finding KF-C06-overlapping-elementwise-relocation).
 -/
 import Cntgs.FixProofs
+import Cntgs.VarRelocProofs
 import Cntgs.Dec
 namespace Cntgs.C01
 
@@ -91,6 +92,17 @@ theorem history_offset_table_partial (ps : List Param) (fs : List Nat) (cap byte
     obs (ops.foldl (VOp.apply junk) (Vec.new ps fs cap bytes junk)) = specObs (ops.foldl VOp.spec []) (ops.foldl capSpec cap) ∧
     (ops.foldl (VOp.apply junk) (Vec.new ps fs cap bytes junk)).poison = false := by
   have h := (VarInv.new ps fs cap bytes junk hl hnf).history ht junk ops hv
+  rw [obs_of_var h, history_cap]
+  exact ⟨rfl, h.clean⟩
+
+/-- **Lists with a VaryingSize parameter, all value types**: the same statement for every history in which no erase
+    relocates an element over its own storage (`VOp.NoOverlap`: no element behind the erased range is larger than the
+    storage-aligned bytes erased).  The excluded histories are exactly those of the known finding. -/
+theorem history_offset_table_no_overlap (ps : List Param) (fs : List Nat) (cap bytes : Nat) (junk : Nat → Nat)
+    (hl : ListOK ps) (hnf : isFixedOrPlain ps = false) (ops : List VOp) (hv : ValidNoOverlap ps [] ops) :
+    obs (ops.foldl (VOp.apply junk) (Vec.new ps fs cap bytes junk)) = specObs (ops.foldl VOp.spec []) (ops.foldl capSpec cap) ∧
+    (ops.foldl (VOp.apply junk) (Vec.new ps fs cap bytes junk)).poison = false := by
+  have h := (VarInv.new ps fs cap bytes junk hl hnf).history_all junk ops hv
   rw [obs_of_var h, history_cap]
   exact ⟨rfl, h.clean⟩
 
